@@ -72,7 +72,7 @@ META["C05"] = {
     "category": "proof",
     "design_ref": "DESIGN.md section 5 / C05 and section 9.5",
     "technique": "Lean 4: the full order monitor (BatchDeliver only after a successful SetOutbox AND with no failed persistence / id / callback step before it) proved for Send and outbox POST against every application: a fail-fast judgement Ff (a value is returned only if no such step failed; nothing stored or delivered) discharged for every function of the pre-store phase by a rule-applying tactic, a delivery-phase judgement Fd for prepare/resolveActors/deliver, the monitor's trace-level meaning, and the outbox history theorem by induction; trace replay of the real code + the same monitor on real traces + set-level oracles for wrap / fresh ids / Create normalisation / store / outbox page / Location",
-    "text": "Proved for all inputs, configurations and application answers (so: every single fault and every combination): on every run of the transcribed Send and PostOutbox, every BatchDeliver event is preceded by a SetOutbox that succeeded, and every Database / id / callback step made before the outbox was updated - and the update itself - succeeded (send_failfast_trace, postOutbox_failfast_trace); any number of accepted posts leave the outbox page listing their ids newest first in front of the old items (given a Database that returns what it stored). The wrapping clause is a theorem too (wrapInCreate_spec: type Create, actor = the outbox's owner, object = the value, published and the ids of each of the five addressing properties copied, absent where the value has none), and so is the fresh-id clause (addNewIDs_spec: the activity carries the id NewID generated for it, and each embedded object of a Create the one generated for it). The remaining value-level clauses (attribution/recipient unions of a Create, objects stored, Location) are decided per run by an independent set-level monitor over the real code's traces and by call-for-call agreement with the model; they are not theorems.",
+    "text": "Proved for all inputs, configurations and application answers (so: every single fault and every combination): on every run of the transcribed Send and PostOutbox, every BatchDeliver event is preceded by a SetOutbox that succeeded, and every Database / id / callback step made before the outbox was updated - and the update itself - succeeded (send_failfast_trace, postOutbox_failfast_trace); any number of accepted posts leave the outbox page listing their ids newest first in front of the old items (given a Database that returns what it stored). The wrapping clause is a theorem too (wrapInCreate_spec: type Create, actor = the outbox's owner, object = the value, published and the ids of each of the five addressing properties copied, absent where the value has none), and so is the fresh-id clause (addNewIDs_spec: the activity carries the id NewID generated for it, and each embedded object of a Create the one generated for it). Of the Create normalisation, two per-phase lemmas are proved: whenever phases 1+2 return for an object, each of its five addressing properties has become its own elements followed by exactly the activity's ids it lacked and every other member is untouched (normObject_spec), and phase 3 leaves each of the activity's addressing properties as its former elements followed by the objects' ids it lacked (normPhase3_spec); their composition into one statement about normalizeRecipients (phase 0's id maps, the loop over all objects), the attribution unions, 'objects stored' and Location are decided per run by an independent set-level monitor over the real code's traces and by call-for-call agreement with the model; they are not theorems.",
     "note": "Trusted: Lean kernel, transcription (replay-validated, fault-free and single-fault), fakes. A failing Unlock is ignored by the library and hence by the monitor. Value-level clauses: per-run oracle only.",
 }
 
@@ -96,7 +96,7 @@ META["C17"] = {
     "category": "proof",
     "design_ref": "DESIGN.md section 5 / C17 and section 9.5",
     "technique": "Lean 4: (1) a trace monitor for InboxForwarding (recorded once and only if new; filter consulted about exactly the loaded collections and only after recording, loading an owned collection and an Owns-yes of the value search; payload = the received activity; recipients = members of the collections the filter kept; at most one BatchDeliver) proved to accept every run of the transcribed function for every application - induction over the recursion fuel of the depth-limited search, over the load loop with its deferred unlocks, and over the recipient loop; (2) the owned-value search refined to the declarative ownsValueSpec (some inReplyTo/object/target/tag value within d levels of the federation graph is owned) whenever it returns, by induction on fuel; (3) with the owned collections loaded, the activity is handed to the transport exactly when the search returns true (calls of the deterministic run). The same monitor and the same ownsValueSpec run over the real code's traces and the scenarios' ground truth.",
-    "text": "Only-if direction, once-ness, unchanged payload and exact recipients: proved for all inputs and all answers of the application (fwdMon). If direction: against an application without lock/transport faults that answers Owns from a table and Dereference from a fixed graph, the search returns ownsValueSpec (hasIFV_det) and, given the loaded owned collections, BatchDeliver is called iff the search succeeds (afterLoad_delivers). Not theorems: that the first two conditions lead to the load loop's continuation (the prefix of InboxForwarding under deterministic answers) and 'a repeated delivery is never forwarded again' across deliveries - oracle + replay on multi-delivery scenarios.",
+    "text": "Only-if direction, once-ness, unchanged payload and exact recipients: proved for all inputs and all answers of the application (fwdMon). If direction: against an application without lock/transport faults that answers Owns from a table and Dereference from a fixed graph, the search returns ownsValueSpec (hasIFV_det) and, given the loaded owned collections, BatchDeliver is called iff the search succeeds (afterLoad_delivers). The whole function, as one statement (inboxForwarding_iff_spec): against such an application, InboxForwarding hands the activity to the transport iff Exists said no (and the Create that records it succeeded), some to/cc/audience id is owned and stored as a Collection/OrderedCollection, and ownsValueSpec holds at the configured depth; an activity seen before is never handed over. Not a theorem: 'a repeated delivery is never forwarded again' as a statement across deliveries (it follows from the seen-before half given a Database whose Exists reflects earlier Creates) - oracle + replay on multi-delivery scenarios.",
     "note": "Known finding C17-member-ids (recipients are member ids, not inboxes) is printed as KNOWN-FINDING. Trusted: Lean kernel, transcription (replay-validated), fakes.",
 }
 
